@@ -68,6 +68,8 @@ func init() {
 			add(ShutdownParams{Case: "rebalance", Checkpoint: "auto", Membership: "static"}, 4)
 			add(ShutdownParams{Case: "rebalance", Checkpoint: "auto", Mitigation: true, Membership: "dynamic"}, 4)
 			add(ShutdownParams{Case: "absorbed", Checkpoint: "auto", Membership: "static", MaxPoint: 2}, 1)
+			add(ShutdownParams{Case: "afterrebalance", Checkpoint: "auto", Membership: "static", MaxPoint: 1}, 1)
+			add(ShutdownParams{Case: "afterrebalance", Checkpoint: "auto", Membership: "static", MaxPoint: 1, OldServer: true}, 1)
 			add(ShutdownParams{Case: "slowobserve", Checkpoint: "auto", Mitigation: true, Membership: "static", MaxPoint: 24}, 2)
 			add(ShutdownParams{Case: "closefault", Checkpoint: "auto", Membership: "static", MaxPoint: 4}, 1)
 			add(ShutdownParams{Case: "closefault", Checkpoint: "auto", Membership: "static", MaxPoint: 4, OldServer: true}, 1)
@@ -368,6 +370,13 @@ func shutdownMain(p ShutdownParams) {
 			}
 			return gocbcore.SimAnswer{}
 		}
+		doClose()
+	case "afterrebalance":
+		// a complete rebalance (close, delay, re-open), then the shutdown
+		dcpStream(e).Rebalance()
+		vrt.Sleep(o.RebalanceDelay + 5*time.Second)
+		vrt.Quiesce()
+		c.WaitIdle()
 		doClose()
 	case "slowobserve":
 		// rollback mitigation: the nodes answer the persistence polls slowly (1.2 s - inside the request deadline)
